@@ -85,33 +85,57 @@ impl<'a> ResolveScope<'a> {
         &self,
         name: &str,
     ) -> Option<&'a ValueReference<<Asn<Unresolved> as Target>::ValueReferenceType>> {
+        self.value_reference_at_depth(name, 0)
+    }
+
+    fn value_reference_at_depth(
+        &self,
+        name: &str,
+        depth: usize,
+    ) -> Option<&'a ValueReference<<Asn<Unresolved> as Target>::ValueReferenceType>> {
         self.model
             .value_references
             .iter()
             .find(|vr| vr.name.eq(name))
             .or_else(|| {
+                // an import chain longer than the number of known modules is cyclic
+                if depth >= self.scope.len() {
+                    return None;
+                }
                 self.model_with_imported_item(name).and_then(|model| {
                     ResolveScope {
                         model,
                         scope: self.scope,
                     }
-                    .value_reference(name)
+                    .value_reference_at_depth(name, depth + 1)
                 })
             })
     }
 
     fn definition(&self, name: &str) -> Option<&'a Definition<Asn<Unresolved>>> {
+        self.definition_at_depth(name, 0)
+    }
+
+    fn definition_at_depth(
+        &self,
+        name: &str,
+        depth: usize,
+    ) -> Option<&'a Definition<Asn<Unresolved>>> {
         self.model
             .definitions
             .iter()
             .find(|def| def.name().eq(name))
             .or_else(|| {
+                // an import chain longer than the number of known modules is cyclic
+                if depth >= self.scope.len() {
+                    return None;
+                }
                 self.model_with_imported_item(name).and_then(|model| {
                     ResolveScope {
                         model,
                         scope: self.scope,
                     }
-                    .definition(name)
+                    .definition_at_depth(name, depth + 1)
                 })
             })
     }
